@@ -5,8 +5,9 @@ from checks.v2common import Acc, trace_leg, tok_model, tok_replay
 PID = "C11"
 def run():
     t0 = time.time(); v = vlib.Verdict(PID); acc = Acc(); th = vlib.TIER == "thorough"
-    tok_model(acc, ["E"], 5 if th else 4, invariants=["Fixpoint"])
-    tok_model(acc, ["A"], 4, invariants=["Fixpoint"])
+    tok_model(acc, ["E"], 5 if th else 4, invariants=["FixpointDom"])
+    tok_model(acc, ["A"], 5 if th else 4, invariants=["FixpointDom"])
+    tok_model(acc, ["E"], 5, invariants=["Fixpoint"], expect_violation="Fixpoint")   # the open finding C11-token-ends-in-hyphen at model level ("1-.\na")
     tok_replay(v, acc, ["E", "A"], 5 if th else 4)
     recs, lines = trace_leg(v, acc, "c11", [PID])
     ps = [r for r in lines if r.get("ev") == "pair"]
